@@ -144,6 +144,7 @@ type Realm struct {
 // World is the closed universe: it implements http.RoundTripper and ociauth.Config.
 type World struct {
 	mu         sync.Mutex
+	sharedHdr  map[string]http.Header // caller-side header maps reused across calls (CallSpec.SharedHeader)
 	Rng        *rand.Rand
 	Registries map[string]*Registry
 	Realms     map[string]*Realm
